@@ -488,6 +488,10 @@ func (e *Explorer) Assert(c *Term, label, where string, knownID string, carve *T
 }
 
 func (e *Explorer) NoteAlloc(size *Term, where, fn string, limit uint64) {
+	// allocations made by the harness's own doubles (sink, source, copies) are not the library's
+	if strings.HasPrefix(where, "zz_verif_") {
+		return
+	}
 	if limit == 0 {
 		limit = e.allocMax
 	}
